@@ -125,11 +125,15 @@ def run(tier, work, replay=None):
                 v.violation(feats, "builder_crash:" + ev["crash"].split(":")[0], ev)
                 continue
             obs = ev["doc"]["nodes"]
-            if not ev["valid"]:
+            leak_active = any(nd["f"] in SHARED and p["alias"] != nd["alias"] for nd, p in zip(tree, pred["nodes"]))
+            if not ev["valid"] and leak_active:
+                v.violation(dict(feats, leak="shared_alias"), "history:alias_leak:doc_invalid",
+                            {"query": ev.get("query"), "errors": ev.get("validation_errors")})
+            elif not ev["valid"]:
                 v.violation(feats, "doc_invalid", {"query": ev.get("query"), "errors": ev.get("validation_errors")})
             elif not ev["vars_unique"]:
                 v.violation(feats, "vars_not_declared_once", {"query": ev.get("query")})
-            elif not ev["values_ok"]:
+            elif not ev["values_ok"] and not (leak_active and not ev["valid"]):
                 v.violation(feats, "values_not_bound", {"query": ev.get("query"), "saw": ev.get("resolver_saw"), "exec": ev.get("exec_errors")})
             # structure vs the expression itself (PureDoc): names, aliases, placement, arguments present
             if len(obs) != len(tree):
